@@ -30,6 +30,7 @@ EXPLANATION = (
   ' (LINT-m) the time-code patterns list no literal separators beside an unescaped `.` (which would make every character a separator);'
   ' (LOOP-break) no loop over the items of a collection is left by a branch that does nothing but `break` on a test about the item (end-of-input sentinels, flags set in the loop body and searches whose variable is read afterwards excepted): an item that is to be skipped does not end the processing of the items after it;'
   ' (FIN-wholeframes) SmpteTimeCode.from_seconds hands from_frames the integer number of complete frames (120 times on and inside frames at 5 rates);'
+  + " (FIN-addframes) SmpteTimeCode.add_frames(n), interpreted on labels just before minute, ten-minute and hour boundaries at 30000/1001, 60000/1001 and 25 fps, leaves the SMPTE label of the frame n later, for n = 1 as for larger n;"
 )
 RULE_TEXT = "EXA: one instance per truncation / time sink call site; FMT: one instance per printer branch x separator choice x sample vector"
 UNDECIDED = ["frames -> label -> frames identity", "label validity and drop-frame label skipping", "monotonicity of successive frame counts",
@@ -520,6 +521,65 @@ def run(ctx):
   nq = shape.check_pure_queries(ctx, [c for c in ix.classes.values() if c.module.name == "ttconv.time_code"])
   ctx.floor("PURE-query", "query methods of the time code classes", nq, 10)
   check_parse_rate(ctx)
+  check_add_frames(ctx)
   common.check_numeric_fields(ctx, ["ttconv.time_code"])
   common.check_regexes(ctx, ["ttconv.time_code"], whole=False, floor=0)
   common.check_history_independence(ctx, ["ttconv.time_code", "ttconv.imsc.attributes", "ttconv.imsc.utils", "ttconv.srt.paragraph", "ttconv.vtt.cue"])
+
+
+def check_add_frames(ctx):
+  """FIN-addframes: SmpteTimeCode.add_frames(n), interpreted on labels just before minute, ten-minute and hour boundaries at
+  30000/1001, 60000/1001 and 25 fps, leaves the label of frame(label) + n - for n = 1 (the step the SCC reader takes per word)
+  as for larger n - so k single steps equal one step of k."""
+  from fractions import Fraction as F
+  from ..consteval import NotConst, Raised
+  from ..rules.minieval import MiniEval
+  ix = ctx.ix
+  cls = ix.cls("ttconv.time_code:SmpteTimeCode")
+  f = cls.methods.get("add_frames")
+  if f is None:
+    raise AnalysisError("anchor function vanished: ttconv.time_code:SmpteTimeCode.add_frames")
+  ctx.unit(f.module)
+
+  def label(n, rate, nominal):
+    if rate.denominator == 1001:
+      return smpte_drop_frame_label(n, nominal)
+    s, fr = divmod(n, nominal)
+    return (s // 3600, s // 60 % 60, s % 60, fr)
+  bad, und, n_ev = [], None, 0
+  for rate, nominal in ((F(30000, 1001), 30), (F(60000, 1001), 60), (F(25), 25)):
+    d = nominal // 15 if rate.denominator == 1001 else 0
+    permin = nominal * 60 - d
+    starts = sorted({k * permin + d + j for k in (1, 2, 9, 10, 11, 59, 60) for j in (-3, -2, -1, 0, 1)} | {0, 5, nominal - 1})
+    for n0 in starts:
+      if n0 < 0:
+        continue
+      for step in (1, 2, 7):
+        h, m_, s_, fr = label(n0, rate, nominal)
+        rec = {"__record__": "SmpteTimeCode", "__class__": cls, "_hours": h, "_minutes": m_, "_seconds": s_, "_frames": fr, "_frame_rate": rate}
+        me = MiniEval(ix)
+        me.init_modules = {"ttconv.time_code"}
+        try:
+          me.call(f, [rec, step])
+        except Raised:
+          bad.append(f"{label(n0, rate, nominal)} + {step} at {rate}: raises")
+          n_ev += 1
+          continue
+        except NotConst as ex:
+          und = str(ex)
+          break
+        n_ev += 1
+        got = (rec.get("_hours"), rec.get("_minutes"), rec.get("_seconds"), rec.get("_frames"))
+        want = label(n0 + step, rate, nominal)
+        if got != want:
+          bad.append(f"{label(n0, rate, nominal)} + {step} at {rate}: {got} instead of {want}")
+      if und:
+        break
+    if und:
+      break
+  if und is not None:
+    ctx.undecide("FIN-addframes", f"{f.qualname}: not in the interpreted subset ({und})")
+    return
+  ctx.check(not bad, "FIN-addframes", f"{f.qualname}|the label of frame + n, for single and larger steps", ctx.where(f.module, f.node), f"interpreted on {n_ev} (label, step, rate) samples",
+            "add_frames, interpreted on labels around minute boundaries: " + "; ".join(bad[:4]) + (f" (+{len(bad) - 4} more)" if len(bad) > 4 else "") +
+            " - the time code that advances by one frame per SCC word leaves the SMPTE label sequence (a skipped label is produced, or single steps and larger steps disagree)")
